@@ -48,7 +48,7 @@ PROPS = {
         "level_text": "Bounded random exploration: tens of thousands of generated (configuration, write program, chunking, read program) cases per run, boundary-biased, judged against the list of messages the program sent. Exploration is the right level because the property quantifies over unbounded inputs and programs; nothing finite enumerates them.",
         "level_note": "Oracle is the harness's own record of what it asked the API to send; the reader under test is the library's, so symmetric writer/reader mistakes are left to C02/C03 (independent codec).",
         "technique": "property-based testing (rapid): generated write/read programs, round-trip oracle, shrinking",
-        "legs": [leg("^TestC01$", 5000, 40000, qshards=8)],
+        "legs": [leg("^TestC01$", 5000, 40000, qshards=8), fuzzleg("FuzzC01", 60)],
     },
     "C02": {
         "title": "Everything written to the wire is well-formed RFC 6455 / RFC 7692 framing",
@@ -58,7 +58,7 @@ PROPS = {
         "level_text": "Bounded random exploration of write programs; every byte the connection hands to the transport is judged by an independent strict RFC 6455/7692 decoder and matched to the API-level messages. Exploration because the input space is unbounded.",
         "level_note": "Independent decoder wsref (self-tested on the RFC 6455 5.7 and RFC 7692 7.2.3 byte strings); compress/flate is trusted for inflation; the mask-key clause uses the verif hook (falls back to a statistical check if the tagged build fails).",
         "technique": "property-based testing (rapid): generated write programs, independent-decoder differential oracle",
-        "legs": [leg("^TestC02$", 5000, 40000, qshards=8)],
+        "legs": [leg("^TestC02$", 5000, 40000, qshards=8), fuzzleg("FuzzC02", 60)],
     },
     "C03": {
         "title": "The reader decodes any conformant peer stream, however fragmented or read",
@@ -68,7 +68,7 @@ PROPS = {
         "level_text": "Bounded random exploration of conformant streams x read programs x chunkings against a reference model of what the stream encodes; the encoder and the deflate producers are independent of the library.",
         "level_note": "Reference encoder/deflaters in harness/wsref, self-tested on RFC byte vectors; ReadJSON is judged differentially against encoding/json on the true payload.",
         "technique": "property-based testing (rapid): independent encoder as generator, reference-model oracle, shrinking",
-        "legs": [leg("^TestC03$", 4000, 40000, qshards=8), leg("^TestC03Sweep$", 1, 1, qshards=8, tshards=16)],
+        "legs": [leg("^TestC03$", 4000, 40000, qshards=8), leg("^TestC03Sweep$", 1, 1, qshards=8, tshards=16), fuzzleg("FuzzC03", 60)],
         "sweep_note": "the driver treats legs whose test name ends in Sweep$ or Cells$ as enumerations",
     },
     "C04": {
@@ -81,7 +81,7 @@ PROPS = {
         "level_text": "The header alphabet is finite and is enumerated completely in every run (29696 cells); the history quantifier is explored by random prefixes. Each cell is one injected protocol fault, hence fault_enumeration.",
         "level_note": "Independent classifier written from RFC 6455 5.2/5.4/5.5/7.4 in harness/props/c04.go; valid cells are cross-checked against the reference decoder so the classifier cannot drift to reject-everything.",
         "technique": "exhaustive alphabet enumeration + property-based testing (rapid) of prefix histories, independent classifier oracle",
-        "legs": [leg("^TestC04Cells$", 1, 1, qshards=8, tshards=16), leg("^TestC04Hist$", 6000, 40000, qshards=8)],
+        "legs": [leg("^TestC04Cells$", 1, 1, qshards=8, tshards=16), leg("^TestC04Hist$", 6000, 40000, qshards=8), fuzzleg("FuzzC04Hist", 60)],
     },
     "C05": {
         "title": "No silent truncation: a transport fault yields whole messages, then an error",
@@ -101,7 +101,7 @@ PROPS = {
         "level_text": "Bounded random exploration over limits, histories and 64-bit length corners with a reference model of which messages are within the limit.",
         "level_note": "Streams come from the independent encoder (claimed lengths are written verbatim into hostile headers).",
         "technique": "property-based testing (rapid): generated read histories and hostile length fields, model oracle",
-        "legs": [leg("^TestC06$", 8000, 40000, qshards=8)],
+        "legs": [leg("^TestC06$", 8000, 40000, qshards=8), fuzzleg("FuzzC06", 60)],
     },
     "C08": {
         "title": "Control frames: handlers see each frame once; ping answered, close echoed",
@@ -111,7 +111,7 @@ PROPS = {
         "level_text": "Bounded random exploration of control-frame placements and payloads against the wire-order model.",
         "level_note": "Write-back bytes are decoded by the independent decoder.",
         "technique": "property-based testing (rapid): generated control-frame placements, wire-order model oracle",
-        "legs": [leg("^TestC08$", 10000, 40000, qshards=8)],
+        "legs": [leg("^TestC08$", 10000, 40000, qshards=8), fuzzleg("FuzzC08", 60)],
     },
     "C07": {
         "title": "Untrusted network input never panics, hangs or allocates out of proportion",
@@ -182,7 +182,7 @@ PROPS = {
         "level_text": "Bounded random exploration of the request grammar and Upgrader settings against an independent classifier and a strict response parser.",
         "level_note": "net/http's request parser is the trusted front end (requests it refuses are counted and discarded).",
         "technique": "property-based testing (rapid): grammar-based request generator, independent classifier + strict-parser oracle",
-        "legs": [leg("^TestC12$", 20000, 100000, qshards=8)],
+        "legs": [leg("^TestC12$", 20000, 100000, qshards=8), fuzzleg("FuzzC12", 60)],
     },
     "C13": {
         "title": "Default origin policy admits same-origin requests only",
@@ -192,7 +192,7 @@ PROPS = {
         "level_text": "Bounded random exploration of adversarial near-miss origins against an independent origin-host extractor.",
         "level_note": "The extractor is written from RFC 3986 section 3.2 in harness/wsref.",
         "technique": "property-based testing (rapid): adversarial origin generator, independent-parser oracle (safety + liveness)",
-        "legs": [leg("^TestC13$", 20000, 150000, qshards=8)],
+        "legs": [leg("^TestC13$", 20000, 150000, qshards=8), fuzzleg("FuzzC13", 60)],
     },
     "C14": {
         "title": "Client handshake: connect iff the reply proves the server accepted this request",
@@ -202,7 +202,7 @@ PROPS = {
         "level_text": "Bounded random exploration of replies, URLs, settings and header maps with an independent digest and a strict request parser.",
         "level_note": "The scripted server computes replies from the bytes the client actually wrote.",
         "technique": "property-based testing (rapid): scripted-server reply generator, iff-classifier oracle, strict request parser",
-        "legs": [leg("^TestC14$", 10000, 50000, qshards=8)],
+        "legs": [leg("^TestC14$", 10000, 50000, qshards=8), fuzzleg("FuzzC14", 60)],
     },
     "C15": {
         "title": "Both endpoints always agree on whether compression is in use",
